@@ -19,7 +19,8 @@
     terminal-relative frame ([columns] / [lines] resolve it). *)
 From Coq Require Import ZArith QArith List Bool.
 From TI Require Import lib.FArith model.Sizing model.SizingSpec
-     proofs.SizingProofs proofs.SizingHistory proofs.SizingTheorems.
+     proofs.SizingProofs proofs.SizingHistory proofs.SizingTheorems
+     model.SizingConc proofs.SizingConcProofs.
 From TI Require gen.Pure proofs.PureTieSizing gen.SizingSrc proofs.SizingSrcTie.
 Open Scope Z_scope.
 
@@ -343,3 +344,82 @@ Print Assumptions C04_source_pixel_ratio.
 Theorem C04_source_default_frame : default_frame = TI.gen.SizingSrc.src_default_frame.
 Proof. exact TI.proofs.SizingSrcTie.default_frame_is_source. Qed.
 Print Assumptions C04_source_default_frame.
+
+(** ---- OVERLAPPING renders of one image (round 6; model/SizingConc.v): any number of threads
+    inside [_renderer] at the same time, every interleaving of their steps (save the setting;
+    fix a dynamic size; run the renderer; the [finally] clause) with each other and with
+    terminal resizes.  Every float arithmetic. ---- *)
+
+(** a dynamic size under EVERY schedule (prefix or complete execution): the size is the member
+    or a fixed size one of the renders computed for it under an environment in force at some
+    moment; once every render has ended it is the member again; every renderer saw one of
+    those values *)
+Theorem C04_conc_dynamic_any_schedule :
+  forall (FA : FloatArith) (fam : family) (ow oh : Z) (s : state FA) (n : nat) (gs : list grant) (m : smode),
+    st_size s = Dyn m ->
+    let st := grun code_restore fam ow oh (cinit s n) gs in
+    let S := fun e' => In e' (envs_of (st_env s) gs) in
+    size_ok fam ow oh m S (c_size st)
+    /\ (all_done st = true -> c_size st = Dyn m)
+    /\ (forall i d, seen_of i (c_seen st) = Some d -> size_ok fam ow oh m S d).
+Proof. exact @conc_dynamic_any_schedule. Qed.
+Print Assumptions C04_conc_dynamic_any_schedule.
+
+(** a fixed size is never written by any render under any schedule, and is what every
+    renderer sees *)
+Theorem C04_conc_fixed_any_schedule :
+  forall (FA : FloatArith) (fam : family) (ow oh : Z) (s : state FA) (n : nat) (gs : list grant) (w h : Z),
+    st_size s = Fixed w h ->
+    let st := grun code_restore fam ow oh (cinit s n) gs in
+    c_size st = Fixed w h /\ (forall i d, seen_of i (c_seen st) = Some d -> d = Fixed w h).
+Proof. exact @conc_fixed. Qed.
+Print Assumptions C04_conc_fixed_any_schedule.
+
+(** "a render leaves the size setting as it was" ([C04_render_restores_dynamic]) for a whole
+    concurrent section: any number of renders, any schedule, every render then runs to its
+    end (which the completion guarantees: [C04_conc_section_ends_every_render]) *)
+Theorem C04_conc_renders_restore_dynamic :
+  forall (FA : FloatArith) (fam : family) (ow oh : Z) (s : state FA) (n : nat) (sched : list grant),
+    let st := conc_run code_restore fam ow oh s n sched in
+    c_size st = st_size s /\ c_env st = env_after (st_env s) sched.
+Proof. exact @conc_run_restores. Qed.
+Print Assumptions C04_conc_renders_restore_dynamic.
+
+Theorem C04_conc_section_ends_every_render :
+  forall (FA : FloatArith) (fam : family) (ow oh : Z) (R : restore_rule) (s : state FA) (n : nat)
+         (sched : list grant),
+    all_done (conc_run R fam ow oh s n sched) = true.
+Proof. exact @conc_run_all_done. Qed.
+Print Assumptions C04_conc_section_ends_every_render.
+
+(** what the renderers of a section saw *)
+Theorem C04_conc_renderers_see :
+  forall (FA : FloatArith) (fam : family) (ow oh : Z) (s : state FA) (n : nat) (sched : list grant)
+         (i : nat) (d : sizeval),
+    seen_of i (c_seen (conc_run code_restore fam ow oh s n sched)) = Some d ->
+    match st_size s with
+    | Fixed w h => d = Fixed w h
+    | Dyn m => d = Dyn m \/ exists e', In e' (envs_of (st_env s) sched) /\ d = fixed_for fam ow oh e' m
+    end.
+Proof. exact @conc_run_seen. Qed.
+Print Assumptions C04_conc_renderers_see.
+
+(** one render alone under the small-step semantics is the atomic [ORender] step of the
+    history model *)
+Theorem C04_conc_one_render_is_render :
+  forall (FA : FloatArith) (fam : family) (ow oh : Z) (s : state FA) (raises : bool),
+    let st := conc_run code_restore fam ow oh s 1 nil in
+    let r := step fam ow oh s (ORender raises) in
+    c_size st = st_size (fst r) /\ c_env st = st_env (fst r)
+    /\ seen_of 0 (c_seen st) = o_during (snd r).
+Proof. exact @conc_one_is_render. Qed.
+Print Assumptions C04_conc_one_render_is_render.
+
+(** EXCLUDED: a [finally] clause that writes back whatever it saved ("leave the size exactly as
+    it was found").  Two overlapping, non-nested renders (T0 in, T1 in, T0 out, T1 out) leave a
+    dynamically sized image with a fixed size for good *)
+Theorem C04_conc_unconditional_restore_refuted :
+  let st := conc_run uncond_restore Text 100 50 toy_state 2 overlap in
+  all_done st = true /\ (exists w h, c_size st = Fixed w h) /\ c_size st <> st_size toy_state.
+Proof. exact uncond_restore_refuted. Qed.
+Print Assumptions C04_conc_unconditional_restore_refuted.
